@@ -33,9 +33,11 @@ RULE = ('ctx cases: random structured tables (1x1, rows with no crosses, ...) x 
         'inadmissible stream (newline / separator / empty / leading white space in names, equal words, separator in a word); mv cases: tables mixing IntervalPS, IntervalNumpyPS, SetPS, '
         'AttributePS with point cells, interval cells, infinite end points of either sign on either side '
         '((a, inf), (-inf, b), inf, -inf, (inf, inf), (-inf, -inf): json writes Infinity) and empty sets; fc/pc cases: concepts built by from_objects '
-        'with measures, plus non-canonical ones (is_extent with a permuted subset, foreign name orders); lat cases: '
+        'with measures (incl. values 0, 0.0, False, None, the empty string), plus non-canonical ones (is_extent with a permuted subset, foreign name orders); lat cases: '
         'lattices of formal contexts (plain and monotone) and of many-valued contexts (numpy path), incl. < 3 '
-        'concepts; non-trivial = table not constant and at least 2x2 (ctx/mv), >= 4 concepts (lat)')
+        'concepts, measures hand-set (zero-like values included) and computed by calc_concepts_measures; contexts, '
+        'concepts and lattices with 11-14 objects / attributes / pattern structures (string keys, sorted orders); '
+        'non-trivial = table not constant and at least 2x2 (ctx/mv), >= 4 concepts (lat)')
 FMT = {'cxt': 0, 'csv': 1, 'json': 2, 'pandas': 3}
 BACKENDS = ['BinTableLists', 'BinTableNumpy', 'BinTableBitarray']
 PTYPES = ['IntervalPS', 'SetPS', 'AttributePS', 'IntervalNumpyPS']
@@ -79,9 +81,12 @@ def grid(x):
         return 'inf'
     if x == -INF:
         return '-inf'
+    if x != x:
+        raise ValueError('NaN is outside the model')
     fr = Fraction(x) * GRID
-    if fr.denominator != 1:
-        raise ValueError('float off the 1/1024 grid: %r' % (x,))
+    if fr.denominator != 1 or abs(fr.numerator) > 10 ** 12:
+        import struct
+        return ['bits', struct.unpack('<q', struct.pack('<d', x))[0]]   # any other float: its bit pattern
     return int(fr)
 
 
@@ -91,6 +96,8 @@ def fnum(g):
         return 'FPosInf'
     if g == '-inf':
         return 'FNegInf'
+    if isinstance(g, list):
+        return '(FBits %s)' % zlit(g[1])
     return '(FFin %s)' % zlit(g)
 
 
@@ -427,9 +434,17 @@ def meas_term(m):
     return '[' + '; '.join('(%s, %s)' % (nstr(k), jv(v)) for k, v in m) + ']'
 
 
+def meas_canon(v):
+    """A measure value as a JSON-able value; a tuple is marked, so that (a, b) and [a, b] differ: the
+    measures the library itself computes must read back with the same type."""
+    if isinstance(v, tuple):
+        return {'__tuple__': [meas_canon(x) for x in v]}
+    return canon(v)
+
+
 def fc_fields(c):
     return [canon(list(c.extent_i)), list(c.extent), canon(list(c.intent_i)), list(c.intent),
-            [[k, canon(v)] for k, v in c.measures.items()], canon(c.context_hash), bool(c.is_monotone)]
+            [[k, meas_canon(v)] for k, v in c.measures.items()], canon(c.context_hash), bool(c.is_monotone)]
 
 
 def fcv_term(f):
@@ -438,14 +453,35 @@ def fcv_term(f):
                                               coq(mono))
 
 
+def measure_value(m):
+    """[key, n] (float n/1024) or [key, tag, n]: 'f' float n/1024, 'i' int n, 'b' bool, 'n' None, 's' str."""
+    if len(m) == 2:
+        return float(m[1]) / GRID
+    tag, n = m[1], m[2]
+    if tag == 'f':
+        return float(n) / GRID
+    if tag == 'i':
+        return int(n)
+    if tag == 'b':
+        return bool(n)
+    if tag == 's':
+        return str(n)
+    return None
+
+
+def set_measures(c, ms):
+    for m in ms:
+        c.measures[m[0]] = measure_value(m)
+
+
 def build_fc(case):
     from fcapy.lattice.formal_concept import FormalConcept
     K = make_formal(case['ctx'])
     base = FormalConcept.from_objects(list(case['objs']), K, is_extent=case.get('is_extent', False))
     h = {'ctx': base.context_hash, 'none': None}.get(case.get('hash', 'ctx'), case.get('hash'))
     c = FormalConcept(base.extent_i, base.extent, base.intent_i, base.intent,
-                      measures={k: float(v) / GRID for k, v in case.get('measures', [])},
                       context_hash=h, is_monotone=bool(case.get('mono', False)))
+    set_measures(c, case.get('measures', []))
     return K, c
 
 
@@ -491,7 +527,7 @@ def pc_fields(c):
     if list(c.pattern_types.keys()) != names:
         raise RuntimeError('pattern_types keys are not the attribute names in order')
     return [canon(list(c.extent_i)), list(c.extent), intent, pts, names,
-            [[k, canon(v)] for k, v in c.measures.items()], canon(c.context_hash)]
+            [[k, meas_canon(v)] for k, v in c.measures.items()], canon(c.context_hash)]
 
 
 def pcv_term(f):
@@ -515,8 +551,7 @@ def run_pc(case):
     from fcapy.lattice.pattern_concept import PatternConcept
     K = make_mv(case['ctx'])
     c = PatternConcept.from_objects(list(case['objs']), K, is_extent=case.get('is_extent', False))
-    for k, v in case.get('measures', []):
-        c.measures[k] = float(v) / GRID
+    set_measures(c, case.get('measures', []))
     inp = pc_fields(c)
     w = guarded(lambda: c.write_json(), 20)
     if w[0] != 'ok':
@@ -550,7 +585,9 @@ def concepts_term(cs):
 
 
 def run_lat(case):
+    import warnings
     from fcapy.lattice import ConceptLattice
+    warnings.simplefilter('ignore')
     K = make_mv(case['ctx']) if 'ptypes' in case['ctx'] else make_formal(case['ctx'])
     try:
         L = ConceptLattice.from_context(K, is_monotone=True) if case.get('mono') else ConceptLattice.from_context(K)
@@ -559,11 +596,29 @@ def run_lat(case):
     if len(L) > case.get('max_concepts', 40):
         return {'skip': True}
     r0 = random.Random(case.get('mseed', 0))
-    if case.get('measures'):
-        for c in L:
-            c.measures['stab'] = r0.randrange(0, GRID + 1) / GRID
-            if r0.random() < 0.5:
-                c.measures['lift'] = float(r0.randrange(-5, 6))
+    mm = case.get('measures')
+    if mm is True:
+        mm = ['hand']
+    for mode in (mm or []):
+        if mode == 'hand':
+            for c in L:
+                c.measures['stab'] = r0.randrange(0, GRID + 1) / GRID
+                if r0.random() < 0.5:
+                    c.measures['lift'] = float(r0.randrange(-5, 6))
+        elif mode == 'zeros':       # values that are falsy: 0, 0.0, False, None, '' -- measures all the same
+            for c in L:
+                for key, val in (('zero', 0), ('fzero', 0.0), ('flag', False), ('nothing', None), ('text', '')):
+                    if r0.random() < 0.6:
+                        c.measures[key] = val
+                if r0.random() < 0.5:
+                    c.measures['delta'] = r0.choice([0.0, 0.0, 0.5, -0.25])
+        else:                       # computed by the library: stability bounds contain exact zeros
+            if mode == 'stability' and K.n_objects > 8:
+                continue            # exact stability is exponential in the number of objects
+            try:
+                L.calc_concepts_measures(mode, K) if mode == 'stability' else L.calc_concepts_measures(mode)
+            except Exception:  # noqa  (computing measures is C16's business)
+                pass
     inp = lat_fields(L)
     objs, attrs = list(K.object_names), list(K.attribute_names)
     w = guarded(lambda: L.write_json(objs, attrs), 30)
@@ -689,6 +744,8 @@ WORDS = [('True', 'False'), ('True', 'False'), ('1', '0'), ('X', ''), ('yes', 'n
 def ctx_case(rng, tier, fmt=None, stream=None):
     dim = 6 if tier == 'quick' else 9
     table, kind = gen.random_table(rng, dim, dim)
+    if rng.random() < 0.08:     # 11-14 objects or attributes
+        table, kind = wide_formal(rng)['table'], 'wide'
     h, w = len(table), len(table[0])
     fmt = fmt or rng.choice(['cxt', 'csv', 'json', 'pandas'])
     stream = stream or ('adm' if rng.random() < 0.7 else 'inadm')
@@ -778,7 +835,7 @@ def mv_data(rng, max_h, max_w, interval_only=False, min_h=1):
 
 
 def mv_case(rng, tier):
-    c = mv_data(rng, 6 if tier == 'quick' else 9, 5)
+    c = wide_mv(rng) if rng.random() < 0.15 else mv_data(rng, 6 if tier == 'quick' else 9, 5)
     c['kind'] = 'mv'
     if rng.random() < 0.5:
         c['desc'] = rng.choice(['', 'many-valued', 'two\nlines'])
@@ -814,8 +871,12 @@ def mv_case(rng, tier):
 
 def measures(rng):
     out = []
-    for k in rng.sample(['stab', 'lift', 'Δ', 'my measure', 'Count'], rng.randint(0, 3)):
-        out.append([k, rng.randrange(-3 * GRID, 3 * GRID)])
+    for k in rng.sample(['stab', 'lift', 'Δ', 'my measure', 'Count', 'LStab', 'zero'], rng.randint(0, 4)):
+        r = rng.random()
+        if r < 0.5:
+            out.append([k, rng.randrange(-3 * GRID, 3 * GRID)])
+        else:       # values that are falsy are measures like any other
+            out.append([k] + rng.choice([['f', 0], ['f', 0], ['i', 0], ['b', 0], ['n', 0], ['s', ''], ['i', 7], ['b', 1]]))
     return out
 
 
@@ -828,8 +889,40 @@ def small_formal(rng, dim, min_dim=1):
             'backend': rng.choice(BACKENDS), 'desc': None}
 
 
+def wide_formal(rng):
+    """11-14 objects or attributes (index -> string keys, 'sorted' orders: '10' < '2'), the other side small."""
+    big = rng.randint(11, 14)
+    small = rng.randint(1, 3)
+    h, w = (big, small) if rng.random() < 0.5 else (small, big)
+    p = rng.choice([0.3, 0.5, 0.8])
+    table = [[rng.random() < p for _ in range(w)] for _ in range(h)]
+    return {'onames': names(rng, h), 'anames': names(rng, w), 'table': table, 'backend': rng.choice(BACKENDS),
+            'desc': None}
+
+
+def wide_mv(rng):
+    """11-14 columns of mixed structures, 1-3 rows."""
+    c = mv_data(rng, 3, 1)
+    h, w = len(c['data']), rng.randint(11, 14)
+    wide = mv_data(rng, 1, 1)
+    ptypes = [rng.choice(PTYPES) for _ in range(w)]
+    rows = []
+    for _ in range(h):
+        row = []
+        for t in ptypes:
+            if t in ('IntervalPS', 'IntervalNumpyPS'):
+                a = rng.randint(-8, 8)
+                row.append(['n', a] if rng.random() < 0.5 else ['i', a, a + rng.randint(0, 5)])
+            elif t == 'SetPS':
+                row.append(['s', sorted(rng.sample(range(-2, 5), rng.randint(0, 3)))])
+            else:
+                row.append(['b', rng.random() < 0.5])
+        rows.append(row)
+    return {'onames': c['onames'], 'anames': names(rng, w), 'ptypes': ptypes, 'data': rows, 'desc': None}
+
+
 def fc_case(rng, tier):
-    K = small_formal(rng, 6)
+    K = wide_formal(rng) if rng.random() < 0.15 else small_formal(rng, 6)
     n = len(K['onames'])
     objs = gen.random_subset(rng, n)
     case = {'kind': 'fc', 'level': rng.choice(['dict', 'json']), 'ctx': K, 'objs': objs, 'measures': measures(rng),
@@ -854,7 +947,7 @@ def fc_case(rng, tier):
 
 
 def pc_case(rng, tier):
-    K = mv_data(rng, 6, 4)
+    K = wide_mv(rng) if rng.random() < 0.25 else mv_data(rng, 6, 4)
     n = len(K['onames'])
     case = {'kind': 'pc', 'ctx': K, 'objs': gen.random_subset(rng, n), 'measures': measures(rng), 'stream': 'adm'}
     if rng.random() < 0.1:
@@ -866,13 +959,21 @@ def pc_case(rng, tier):
 
 def lat_case(rng, tier):
     r = rng.random()
-    if r < 0.65:
+    if r < 0.55:
         K = small_formal(rng, 5 if tier == 'quick' else 6, min_dim=1 if rng.random() < 0.1 else 2)
         mono = rng.random() < 0.25
+    elif r < 0.65:
+        K = wide_formal(rng)
+        mono = rng.random() < 0.25
+    elif r < 0.8:
+        K = wide_mv(rng)
+        mono = False
     else:
         K = mv_data(rng, 5, 3, min_h=1 if rng.random() < 0.1 else 3)
         mono = False
-    return {'kind': 'lat', 'ctx': K, 'mono': mono, 'measures': rng.random() < 0.5, 'mseed': rng.randrange(10 ** 6),
+    modes = rng.sample(['hand', 'zeros', 'zeros', 'stability_bounds', 'log_stability_lbound', 'stability'],
+                       rng.randint(0, 3))
+    return {'kind': 'lat', 'ctx': K, 'mono': mono, 'measures': modes, 'mseed': rng.randrange(10 ** 6),
             'max_concepts': 24 if tier == 'quick' else 40}
 
 
@@ -1004,7 +1105,7 @@ def shrink(case):
         K = case['ctx']
         if case.get('measures'):
             c = dict(case)
-            c['measures'] = False
+            c['measures'] = list(case['measures'])[:-1] if isinstance(case['measures'], list) else []
             out.append(c)
         key = 'data' if 'ptypes' in K else 'table'
         rows = K[key]
